@@ -1,6 +1,6 @@
 (** Property C03 -- the parser follows the DEC/ANSI state machine.
     Only pinned statements, closed by [exact], with their assumptions printed. *)
-From Avt Require Import Model.Parser Spec.Williams Proofs.Inv Proofs.ParserTable Proofs.ParserInv Proofs.ParserSim.
+From Avt Require Import Model.Parser Spec.Williams Proofs.Inv Proofs.ParserTable Proofs.ParserInv Proofs.ParserSim Spec.Functions Proofs.DispatchTable.
 
 (** C03.1  For every parser state and every input character (all of N, hence every Unicode scalar value) the next state, the kind of action and the entry action [clear] of the regenerated [Parser::feed] table agree with Williams' diagram + the four deviations. *)
 Theorem C03_table : forall (s : pstate) (c : N), trans_model s c = williams s c.
@@ -45,3 +45,31 @@ Theorem C03_ground : forall p q, pst p = Ground -> pst q = Ground -> psim p q.
 Proof. exact psim_ground. Qed.
 Check C03_ground : forall p q, pst p = Ground -> pst q = Ground -> psim p q.
 Print Assumptions C03_ground.
+
+(** C03.3  each implemented final byte yields its function with the parameters as written: the CSI / ESC / C0-C1 / mode
+    tables regenerated from the source equal the hand-written function table of Spec/Functions.v, for every private marker
+    or intermediate, every final byte (all of N) and every parameter array *)
+Theorem C03_csi_table : forall inter fin ps cp, csi_dispatch_gen inter fin ps cp = csi_spec ps cp inter fin.
+Proof. exact csi_table. Qed.
+Check C03_csi_table : forall inter fin ps cp, csi_dispatch_gen inter fin ps cp = csi_spec ps cp inter fin.
+Print Assumptions C03_csi_table.
+
+Theorem C03_esc_table : forall inter fin, snd (esc_dispatch_gen inter fin) = esc_spec inter fin /\ (fst (esc_dispatch_gen inter fin) = None \/ fst (esc_dispatch_gen inter fin) = Some Ground).
+Proof. exact esc_table. Qed.
+Check C03_esc_table : forall inter fin, snd (esc_dispatch_gen inter fin) = esc_spec inter fin /\ (fst (esc_dispatch_gen inter fin) = None \/ fst (esc_dispatch_gen inter fin) = Some Ground).
+Print Assumptions C03_esc_table.
+
+Theorem C03_c0c1_table : forall c, execute_gen c = execute_spec c.
+Proof. exact execute_table. Qed.
+Check C03_c0c1_table : forall c, execute_gen c = execute_spec c.
+Print Assumptions C03_c0c1_table.
+
+Theorem C03_dec_modes : forall v, dec_mode_gen v = dec_mode_spec v.
+Proof. exact dec_mode_table. Qed.
+Check C03_dec_modes : forall v, dec_mode_gen v = dec_mode_spec v.
+Print Assumptions C03_dec_modes.
+
+Theorem C03_ansi_modes : forall v, ansi_mode_gen v = ansi_mode_spec v.
+Proof. exact ansi_mode_table. Qed.
+Check C03_ansi_modes : forall v, ansi_mode_gen v = ansi_mode_spec v.
+Print Assumptions C03_ansi_modes.
